@@ -106,7 +106,7 @@ def drop_aborted_runs(path, aborted):
     open(path, "w").writelines(keep)
 
 
-def harness_supervised(exe, args, out, total, stall=60):
+def harness_supervised(exe, args, out, total, stall=120):
     """Run a harness command that processes `total` cases, reports the case in progress in <out>.progress and accepts
     --from N. An abort (allocation cap, stack overflow, ...) or a stall is attributed to the case in progress and the run
     resumes behind it. Returns [(case index, kind, stderr tail)]."""
